@@ -1439,6 +1439,9 @@ class Evaluator:
         if fn.startswith("core::option::Option::<T>::") and name in ("get_or_insert", "insert") and len(args) == 2 and isinstance(args[0], Agg) and args[0].var in ("Some", "None"):
             # value seen through the returned reference (the store into the option is reported by the `watch` record)
             return args[1] if (args[0].var == "None" or name == "insert") else args[0].fields.get("0")
+        if fn.startswith("core::option::Option::<T>::") and name in ("replace", "take") and isinstance(args[0], Agg) and args[0].var in ("Some", "None"):
+            # the value handed out is the old content (the store into the option is reported by the `watch` record)
+            return args[0]
         if fn.startswith("core::option::Option::<T>::") and name in ("and_then", "map", "map_or", "unwrap_or") and args and isinstance(args[0], Agg) and args[0].var in ("Some", "None"):
             # combinators on an option whose variant is known
             v = args[0]
